@@ -81,6 +81,18 @@ class AWorld(World):
                            cancelled=False, started=False)
                 self.handles.append(h)
                 self.log.append((method, h, self.thread, self.on_loop_thread()))
+                if (method == "call_soon_threadsafe" and self.running and not self.on_loop_thread() and not getattr(self, "early", False)
+                        and self.thread == "caller" and it.ctx.choose(2, "the loop thread runs the callback before the calling thread gets the handle back") == 1):
+                    # two threads: the loop may pick the callback up at once - the caller is preempted before it has done anything with the handle
+                    self.early = True
+                    prev = self.thread
+                    self.thread = "loop"
+                    h.attrs["started"] = True
+                    self.log.append(("loop-runs", h))
+                    try:
+                        it.call(fn, [], {})
+                    finally:
+                        self.thread = prev
                 return h
             if method == "time":
                 return self.now(it)
@@ -213,8 +225,9 @@ class AioHarness:
         w.thread = "caller"
         args = [action, st0] if name == "schedule" else [d, action, st0]
         res = it.call(it.get_attr(o, name), args, {})
-        self.rec(ctx, uid + "/the-call-invokes-nothing-itself", not [e for e in w.log if e[0] == "invoke_action"])
-        first = [e for e in w.log if e[0] in ("call_soon", "call_soon_threadsafe", "call_later")]
+        # (what the LOOP thread does meanwhile - it may pick a marshalled callback up before this call has returned - is not this call's doing)
+        self.rec(ctx, uid + "/the-call-invokes-nothing-itself", not [e for e in w.log if e[0] == "invoke_action" and e[3] != "loop"])
+        first = [e for e in w.log if e[0] in ("call_soon", "call_soon_threadsafe", "call_later") and e[2] != "loop"]
         self.rec(ctx, uid + "/hands-exactly-one-callback-to-the-loop", len(first) == 1)
         if len(first) != 1:
             return
